@@ -11,7 +11,8 @@ SPEC = dict(
     rule="generated histories over 1-3 branches (+ HEAD indexed as an alias of main in 25%): a REAL bare git repository "
          "(git init + git fast-import, one commit per changed branch and step), 2-6 steps of 0-3 edits each (add, modify, "
          "delete, rename, revert a branch to an earlier tree, copy a file from another branch, sync a branch to another "
-         "branch's tree, move a file between branches, swap two files, modify one path on every branch; small content pool so "
+         "branch's tree, move a file between branches, swap two files, modify one path on every branch, submodule entries "
+         "(gitlinks) added / replacing a file / replaced by a file; small content pool so "
          "the same blob sits on several branches/paths), each step followed by gitindex.IndexGitRepo full or delta (75% "
          "delta; first run sometimes delta = fallback); 30% of the histories with a tiny ShardMax (several shards per build). "
          "After EVERY run: per branch Search(branch:<b>, Whole) vs `git ls-tree -r` (Go oracle) and the stack of layers (raw "
